@@ -35,6 +35,12 @@ def run(ctx):
     c09_4(ctx)
     c09_5(ctx)
     c09_6(ctx)
+    # removal / addition ids come from Coin::coin_id (amount ladder, shared with C11.1); the coin lookup walks spends with the
+    # sanitiser atoms first/rest/next/check_nil (value-based nil test, shared with C01.3)
+    from . import c11, c01
+    from . import cond_spec as _S
+    c11.ladder(ctx, "chia_protocol::coin::Coin::coin_id", "coin_id", rule="C09.1")
+    c01.c01_3(ctx, _S.load(), R="C09.3")
 
 
 def _coin_aggs(b):
